@@ -15,7 +15,11 @@ for p in sorted(glob.glob('/verif/seeded/*/meta.json')):
     needs = m.get('needs', '').replace('|', '/').replace('\n', ' ')
     if len(summ) > 230: summ = summ[:227] + '...'
     if len(needs) > 200: needs = needs[:197] + '...'
-    rows.append(f"| {sid} | {m.get('property')} | {summ} | {needs} | {', '.join(det) or '-'}{' (first keys: ' + ', '.join('`'+k+'`' for k in keys) + ')' if keys else ''} | {', '.join(missed) or '-'} |")
+    rep = f"{', '.join(det) or '-'}{' (first keys: ' + ', '.join('`'+k+'`' for k in keys) + ')' if keys else ''}"
+    if m.get('status') == 'superseded-by-fix':
+        rep = 'superseded: led to a `fix:` in /repo, after which the change is behaviour-preserving (see note in meta.json); checks quiet on the repaired tree'
+        missed = []
+    rows.append(f"| {sid} | {m.get('property')} | {summ} | {needs} | {rep} | {', '.join(missed) or '-'} |")
 table = "| seed | property | change | needs | reported by | also run, silent |\n|---|---|---|---|---|---|\n" + "\n".join(rows) + "\n"
 s = open('/verif/DESIGN.md').read()
 s = re.sub(r"<!-- SEEDED-BEGIN -->.*<!-- SEEDED-END -->", "<!-- SEEDED-BEGIN -->\n" + table + "<!-- SEEDED-END -->", s, flags=re.S)
